@@ -8,7 +8,7 @@ from .c09 import render
 ID = 'C17'
 RULE = ('tables (exhaustive): every key of the decoder table of a fresh TracesParser and of each of the seven family '
         'tables is checked against an independent reader of the bundled trace.codes (name present, under an id with '
-        'qualifier bits clear), the families are pairwise disjoint, every X_nocancel has its X. twins (generated): for '
+        'qualifier bits clear; also through the tool\'s own default table after a caller edited the mapping it was handed earlier), the families are pairwise disjoint, every X_nocancel has its X. twins (generated): for '
         'every pair, in-domain START/END tuples (error zero / errno / unknown), 0..2 lookups (a third of them paths containing the call\'s own name): the two renderings '
         'are identical after removing the single "_nocancel" that follows the call name (every third case after another '
         'parser object, built on a table lacking both names, has seen the same ids and must decode nothing). Non-trivial: twin case with '
@@ -48,6 +48,17 @@ def prop_table(ctx, case):
             both = fl[i][1] & fl[j][1]
             if both:
                 raise Violation('families-overlap', f'{fl[i][0]} and {fl[j][0]} both claim {sorted(both)[:3]}')
+    # a caller that tailors the table it was handed (overlaying a dump's embedded codes, dropping names) tailors its own
+    # copy: decoders stay reachable through the bundled table for everybody else
+    from pykdebugparser.trace_codes import default_trace_codes
+    mine = guard(default_trace_codes)
+    try:
+        for i in [i for i, n in list(mine.items()) if n in registered][::3]:
+            mine[i] = 'renamed_by_a_caller'
+        mine[0x7fff0004] = 'BSC_read'
+    except TypeError:
+        pass
+    EV._default_codes = None
     real = EV.default_codes()
     for n in sorted(registered):
         ids = [i for i in names_in_table.get(n, []) if not i & 3]
